@@ -114,6 +114,17 @@ def run(prog, tier, extra=None):
             ordered |= c["true_edges"]
         elif c["op"] == "Ge":
             ordered |= c["false_edges"]
+    # `current.checked_sub(previous)` is None exactly when previous > current; `.filter(|e| *e > 0)` adds the equal case
+    for bb, blk in enumerate(wfb.blocks):
+        t_ = blk["t"]
+        if t_["k"] != "switch":
+            continue
+        e_ = wch.origin(t_["discr"])
+        if e_[0] == "discr":
+            subs = [y for y in walk(e_[1]) if y[0] in ("call", "via") and y[1].rsplit("::", 1)[-1] == "checked_sub" and y[0] == "call" and len(y[2]) == 2
+                    and _ts(y[2][0], "current") and _ts(y[2][1], "previous")]
+            if subs:
+                ordered |= gate.variant_edges(wfb, bb, 1)
     impossible = {bb for bb, blk in enumerate(wfb.blocks) for st in blk["s"]
                   if st[0] == "=" and st[1][0] == 0 and not st[1][1] and st[2][0] == "use" and st[2][1][0] == "k" and isinstance(st[2][1][1].get("v"), int) and st[2][1][1]["v"] >= 10 ** 19}
     res.instance(R6)
